@@ -6,19 +6,195 @@ package msgformat
 import (
 	"encoding/hex"
 	"encoding/json"
+	"fmt"
 	"os"
+	"runtime"
+	"sync"
 	"testing"
 )
 
 type vcase struct {
 	Op   string `json:"op"`
 	Data string `json:"data"`
+	// batch mode: the whole list goes through the encoder first and every result is kept by the caller
+	Items  []vcase `json:"items"`
+	Conc   int     `json:"conc"`   // > 1: that many concurrent callers (item i belongs to caller i mod conc)
+	Procs  int     `json:"procs"`  // GOMAXPROCS while the concurrent callers run (0 = unchanged)
+	Shared bool    `json:"shared"` // the caller reuses ONE input buffer for every call (sequential only)
 }
 type vres struct {
 	Ok   bool   `json:"ok"`
 	Out  string `json:"out"`
 	Ok2  bool   `json:"ok2"`
 	Out2 string `json:"out2"`
+	Err  string `json:"err"`
+	Err2 string `json:"err2"`
+	// batch mode
+	Items     []vres `json:"items,omitempty"`
+	Panic     string `json:"panic"`
+	Snap      string `json:"snap"`      // the encoding as it was right after its own call (the driver's copy)
+	DecStable bool   `json:"decstable"` // the decoded value still looks as it did right after its own decode call
+	Alias     bool   `json:"alias"`     // informational: the decoded value changed when the decoder's input was overwritten afterwards
+}
+
+func errStr(err error) string {
+	if err == nil {
+		return ""
+	}
+	return err.Error()
+}
+
+// ---- batch mode ----
+// k calls of one encoder whose results are ALL kept by the caller (not copied: the point is to observe what the
+// caller holds), then k calls of the decoder on what is held, all decoded values kept as well, and only then is
+// anything looked at.  The driver records; the oracle is in c15.py.
+
+func runCalls(n, conc, procs int, call func(i int)) {
+	if conc <= 1 {
+		for i := 0; i < n; i++ {
+			call(i)
+		}
+		return
+	}
+	if procs > 0 {
+		prev := runtime.GOMAXPROCS(procs)
+		defer runtime.GOMAXPROCS(prev)
+	}
+	var wg sync.WaitGroup
+	for w := 0; w < conc; w++ {
+		wg.Add(1)
+		go func(w int) {
+			defer wg.Done()
+			for i := w; i < n; i += conc {
+				call(i)
+				runtime.Gosched()
+			}
+		}(w)
+	}
+	wg.Wait()
+}
+
+func guard(r *vres, f func()) {
+	defer func() {
+		if p := recover(); p != nil {
+			r.Panic = fmt.Sprint(p)
+		}
+	}()
+	f()
+}
+
+// enc(i) -> the bytes the caller holds; dec(i, held) -> a value the caller holds; view(i, value, r) writes the
+// value's projection into r.  afterEnc runs when the last encoder call has returned.
+func runBatch(c vcase, afterEnc func(), enc func(i int) ([]byte, error), dec func(i int, b []byte) (interface{}, error),
+	view func(i int, v interface{}, r *vres)) []vres {
+	n := len(c.Items)
+	res := make([]vres, n)
+	held := make([][]byte, n)
+	snaps := make([][]byte, n)
+	runCalls(n, c.Conc, c.Procs, func(i int) {
+		guard(&res[i], func() {
+			out, err := enc(i)
+			held[i] = out
+			res[i].Ok, res[i].Err = err == nil, errStr(err)
+			snaps[i] = append([]byte(nil), out...)
+		})
+	})
+	afterEnc()
+	for i := range res { // what the caller holds after the LAST call
+		res[i].Snap = hex.EncodeToString(snaps[i])
+		res[i].Out = hex.EncodeToString(held[i])
+	}
+	vals := make([]interface{}, n)
+	decSnap := make([]string, n)
+	project := func(i int) string {
+		var tmp vres
+		guard(&tmp, func() { view(i, vals[i], &tmp) })
+		b, _ := json.Marshal(tmp)
+		return string(b)
+	}
+	for i := range res {
+		if !res[i].Ok || res[i].Panic != "" {
+			continue
+		}
+		guard(&res[i], func() {
+			v, err := dec(i, held[i])
+			vals[i] = v
+			res[i].Ok2, res[i].Err2 = err == nil, errStr(err)
+		})
+		if res[i].Ok2 {
+			decSnap[i] = project(i)
+		}
+	}
+	for i := range res {
+		if res[i].Ok2 {
+			guard(&res[i], func() { view(i, vals[i], &res[i]) })
+			res[i].DecStable = project(i) == decSnap[i]
+		}
+	}
+	// informational: does the decoded value share storage with the decoder's input?
+	for i := range res {
+		if res[i].Ok2 {
+			for j := range held[i] {
+				held[i][j] ^= 0x5a
+			}
+			res[i].Alias = project(i) != decSnap[i]
+		}
+	}
+	return res
+}
+
+// the inputs of a batch and the buffer each call is given: its own, or (shared) ONE buffer the caller reuses
+func batchInputs(c vcase) (data [][]byte, input func(i int) []byte, afterEnc func()) {
+	n := len(c.Items)
+	data = make([][]byte, n)
+	maxLen := 0
+	for i, it := range c.Items {
+		data[i], _ = hex.DecodeString(it.Data)
+		if data[i] == nil {
+			data[i] = []byte{}
+		}
+		if len(data[i]) > maxLen {
+			maxLen = len(data[i])
+		}
+	}
+	shared := make([]byte, maxLen)
+	input = func(i int) []byte {
+		if !c.Shared || c.Conc > 1 {
+			return data[i]
+		}
+		in := shared[:len(data[i])]
+		copy(in, data[i])
+		return in
+	}
+	afterEnc = func() { // the caller goes on using its input buffer
+		for j := range shared {
+			shared[j] = 0xa5
+		}
+	}
+	return
+}
+
+func bytesView(i int, v interface{}, r *vres) {
+	b, _ := v.([]byte)
+	r.Out2 = hex.EncodeToString(b)
+}
+
+func batch(c vcase, r *vres) {
+	if len(c.Items) == 0 {
+		return
+	}
+	_, input, afterEnc := batchInputs(c)
+	switch c.Items[0].Op {
+	case "rt_req":
+		r.Items = runBatch(c, afterEnc,
+			func(i int) ([]byte, error) { return AddRequestFormat(input(i)) },
+			func(i int, b []byte) (interface{}, error) { return RemoveRequestFormat(b) }, bytesView)
+	case "rt_resp":
+		r.Items = runBatch(c, afterEnc,
+			func(i int) ([]byte, error) { return AddResponseFormat(input(i)) },
+			func(i int, b []byte) (interface{}, error) { return RemoveResponseFormat(b) }, bytesView)
+	}
+	r.Ok = true
 }
 
 func TestVerifC15Msgformat(t *testing.T) {
@@ -35,6 +211,8 @@ func TestVerifC15Msgformat(t *testing.T) {
 		d, _ := hex.DecodeString(c.Data)
 		var r vres
 		switch c.Op {
+		case "batch":
+			batch(c, &r)
 		case "rt_req": // encode, then decode the encoding
 			e, err := AddRequestFormat(d)
 			r.Ok = err == nil
